@@ -401,7 +401,7 @@ def gen_overlap(rng):
 
 
 def generate(rng, tier, scale=1):
-    ng, nr, nl, nh, nc, nk, nm = ((1500, 700, 400, 80, 25, 25, 80) if tier == "quick"
+    ng, nr, nl, nh, nc, nk, nm = ((1300, 600, 400, 80, 25, 25, 80) if tier == "quick"
                                   else (30000, 15000, 8000, 1500, 500, 400, 1500))
     calcs, hists = [], []
     for _ in range(ng * scale):
